@@ -148,6 +148,7 @@ def replay_point(chk, e, n):
 
 def run(tier, seed):
     chk = common.Check(PID, tier, seed)
+    lattice.REUSE = True          # parameter settings reached on live objects, by every route (see lattice.py)
     rng = random.Random(seed)
     chk.rule = ("lattice points theta = t*ln B: exhaustive small architectures (all parameters in a non-zero value "
                 "set) + seeded points nv 1..5, nh 1..6, B in {2,3}, |t| up to 43 (|theta| ~ 30); TLC checks the "
